@@ -532,12 +532,21 @@ class Engine(MemMixin, OpsMixin, ExecMixin):
         if val is not None:
             r = self.const_int(ty, 1 if val else 0)
             return r
+        w, _ = self.int_info(ty)
+        g = f[1] if f[0] == "not" else f
+        if g[0] == "bit" and isinstance(g[2], int) and g[1] in self.ranges and (self.ranges[g[1]][0] or 0) >= 0:
+            # bit k of a word as a number: the binary digit (exactly linked to the word, so that pinning the word
+            # pins it), or its complement
+            q_, _r = self.divmod_const(st, Lin.sym(g[1]), 1 << g[2])
+            _q, d_ = self.divmod_const(st, q_, 2)
+            lin = d_ if f[0] != "not" else Lin.const(1) - d_
+            bit0 = ("b", g[1], g[2]) if f[0] != "not" else ("n", g[1], g[2])
+            return VInt(ty, lin, 1, (bit0,) + (0,) * (w - 1), taint=v.taint)
         s = self.boolint.get(f)
         if s is None:
             s = self.fresh("b2i")
             self.boolint[f] = s
             self.ranges[s] = (0, 1)
-        w, _ = self.int_info(ty)
         bit0 = ("b", f[1], f[2]) if f[0] == "bit" else ("f", f)
         bits = (bit0,) + (0,) * (w - 1)
         return VInt(ty, Lin.sym(s), 1, bits, taint=v.taint)
@@ -580,6 +589,14 @@ class Engine(MemMixin, OpsMixin, ExecMixin):
         if c > 0 and v_lin.c % c == 0 and all(k % c == 0 for k in v_lin.t.values()):
             # exact division: every term is a multiple of c
             return Lin({s: k // c for s, k in v_lin.t.items()}, v_lin.c // c), Lin.const(0)
+        if c > 0 and any(k % c == 0 for k in v_lin.t.values()):
+            # c*A + B with 0 <= B < c: quotient A, remainder B (e.g. 64*msb + 2*h + 1 divided by 2)
+            A = Lin({s: k // c for s, k in v_lin.t.items() if k % c == 0}, v_lin.c // c)
+            B = Lin({s: k for s, k in v_lin.t.items() if k % c != 0}, v_lin.c % c)
+            lo_b, hi_b = self.bounds(st, B)
+            lo_a, _hi_a = self.bounds(st, A)
+            if lo_b is not None and hi_b is not None and lo_b >= 0 and hi_b < c and lo_a is not None and lo_a >= 0:
+                return A, B
         key = (v_lin.key(), c)
         m = st.divmemo.get(key)
         if m is None:
@@ -601,9 +618,13 @@ class Engine(MemMixin, OpsMixin, ExecMixin):
             st.ghost.setdefault("defs", set())
             st.ghost["defs"] = st.ghost["defs"] | {d[0].key()}
             if lo is not None and lo >= 0:
-                st.cons.append(c_le(Lin.const(0), Lin.sym(q)))
+                b1 = c_le(Lin.const(0), Lin.sym(q))
+                st.cons.append(b1)
+                st.ghost["defs"] = st.ghost["defs"] | {b1[0].key()}
             if hi is not None:
-                st.cons.append(c_le(Lin.sym(q), Lin.const(hi // c)))
+                b2 = c_le(Lin.sym(q), Lin.const(hi // c))
+                st.cons.append(b2)
+                st.ghost["defs"] = st.ghost["defs"] | {b2[0].key()}
         return Lin.sym(m[0]), Lin.sym(m[1])
 
     # ------------------------------------------------------------ region marks (C11/C12 segmentation; refined later)
